@@ -38,7 +38,32 @@ ARGS = [
     {"k": "str", "v": "_"}, {"k": "str", "v": "--x"}, {"k": "str", "v": "hyx_"}, {"k": "str", "v": "été"},
     {"k": "str", "v": "a?"}, {"k": "str", "v": "*x*"}, {"k": "int", "v": 7}, {"k": "int", "v": -3},
     {"k": "kw", "v": "key"}, {"k": "sym", "v": "some-sym"}, {"k": "str", "v": "a.b"}, {"k": "float", "v": 1.5},
+    {"k": "str", "v": "\ufb01"}, {"k": "str", "v": "\u00b5"}, {"k": "str", "v": "\uff26oo"}, {"k": "str", "v": "\u2171"},
+    {"k": "str", "v": "x\u0301"}, {"k": "str", "v": "\U0001d525"}, {"k": "str", "v": "\u01c5"}, {"k": "str", "v": "hyx_Xfoo"},
 ]
+CHARS = "abcxyzXYZ019-_!?*+<>=/ \u00e9\ufb01\u00b5\uff21\u2171\u2603\u0301\U0001d525\u01c5\u00aa\u2460\u212b\u1e9b\u0323"
+
+
+def _snapshot(U):
+    """Import-time value of every scalar / lock / counter global of the module under
+    test: each run starts from the state a freshly imported module has."""
+    import copy, itertools
+    snap = {}
+    for k, v in vars(U).items():
+        if k.startswith("__"):
+            continue
+        if v is None or type(v) in (int, bool) or isinstance(v, itertools.count):
+            snap[k] = ("value", copy.copy(v))
+        elif isinstance(v, T.SimLock):
+            snap[k] = ("lock", v._reentrant)
+    return snap
+
+
+def _restore():
+    import copy
+    U = _state["U"]
+    for k, (kind, v) in _state["snapshot"].items():
+        setattr(U, k, copy.copy(v) if kind == "value" else T.SimLock(v))
 
 
 def setup_worker():
@@ -49,18 +74,15 @@ def setup_worker():
         import hy
         import hy.core.util as U
     adopted = T.adopt_module_locks(U)
+    _state["U"] = U
+    _state["snapshot"] = _snapshot(U)  # before any gensym call
     import hy.models
     # warm-up outside the simulation: performs hy's lazy imports
-    hy.gensym()
-    hy.gensym("x-y")
+    with T.patched_locks():
+        hy.gensym()
+        hy.gensym("x-y")
     hy.mangle("a-b")
     _state["hy"] = hy
-    _state["U"] = U
-    # per-run reset of the module's scalar state (whatever it is called), so a run
-    # does not depend on how many gensyms earlier runs of this process consumed
-    import copy, itertools
-    _state["snapshot"] = {k: copy.copy(v) for k, v in vars(U).items()
-                          if (type(v) is int) or isinstance(v, itertools.count)}
     _state["adopted"] = adopted
     code = hy.gensym.__code__
     _state["file"] = code.co_filename
@@ -78,7 +100,8 @@ def setup_worker():
         win = (min(loads), max(stores))
     _state["window"] = win
     _state["gensym_name"] = code.co_name
-    _state["warm_counts"] = T.warm_trace(lambda: hy.gensym("w"), {_state["file"]})
+    with T.patched_locks():
+        _state["warm_counts"] = T.warm_trace(lambda: hy.gensym("w"), {_state["file"]})
 
 
 def plan(tier):
@@ -91,7 +114,15 @@ def generate(rng, tier):
     nthreads = rng.choice([2, 2, 3, 3, 4])
     threads = []
     for _ in range(nthreads):
-        calls = [rng.choice(ARGS) if rng.random() < 0.8 else {"k": "none"} for _ in range(rng.choice([1, 1, 2, 3]))]
+        calls = []
+        for _ in range(rng.choice([1, 1, 2, 3])):
+            r = rng.random()
+            if r < 0.2:
+                calls.append({"k": "none"})
+            elif r < 0.75:
+                calls.append(rng.choice(ARGS))
+            else:
+                calls.append({"k": "str", "v": "".join(rng.choice(CHARS) for _ in range(rng.randrange(1, 5)))})
         threads.append(calls)
     pol = rng.choice(["random", "random", "pct", "rr"])
     if pol == "random":
@@ -124,9 +155,7 @@ _num = re.compile(r"(\d+)$")
 def execute(desc):
     setup_worker()
     hy = _state["hy"]
-    import copy
-    for k, v in _state["snapshot"].items():
-        setattr(_state["U"], k, copy.copy(v))
+    _restore()
     spec = desc["sched"]
     chooser = T.make_chooser(spec, random.Random(spec.get("seed", 0)), len(desc["threads"]))
     sched = T.Scheduler(chooser)
@@ -155,13 +184,15 @@ def execute(desc):
                     results.append((tid, ci, "exc", type(e).__name__))
         return body
 
-    outcome = sched.run([mk(t, c) for t, c in enumerate(desc["threads"])],
-                        trace_files={_state["file"]}, trace_line_prefix=_state["hydir"])
+    with T.patched_locks():  # a lock created at call time is a simulated lock too
+        outcome = sched.run([mk(t, c) for t, c in enumerate(desc["threads"])],
+                            trace_files={_state["file"]}, trace_line_prefix=_state["hydir"])
     if outcome == "watchdog":
         raise RuntimeError("harness: watchdog fired (thread blocked on a lock the simulator does not own)")
     follow = []
-    for _ in range(desc.get("followup", 0)):
-        follow.append(hy.gensym())
+    with T.patched_locks():
+        for _ in range(desc.get("followup", 0)):
+            follow.append(hy.gensym())
 
     viols = []
     if outcome == "deadlock":
